@@ -37,7 +37,7 @@ Definition status (c : N * cstmts * option (body * N)) : N :=
   | OK (e, hc), Some (b, hpy) =>
       match denote b with
       | None => 5
-      | Some e' => if effect_eqb (canon e) (canon e') then (if N.eqb hc hpy then 0 else 6) else 4
+      | Some e' => if effect_eqb (canon e) (canon e') then (if N.eqb hc hpy || N.eqb hpy 999999 then 0 else 6) else 4
       end
   end%N.
 """
@@ -61,7 +61,16 @@ def cfg_coq(sig, params=None, ret=None) -> str:
         ps = "[" + "; ".join(f"({common.coq_str(n)}, {vt_coq(t)})" for n, t in params) + "]"
         rt = f"(Some {vt_coq(ret)})"
     return (f"Definition subs0 : list subsig := [{subs}].\nDefinition macs0 : list macsig := [{macs}].\n"
-            f"Definition cfg (h : N) : config := mkcfg no_fixes subs0 macs0 {ps} {rt} h.\n")
+            f"Definition cfg (h : N) : config := mkcfg faithful subs0 macs0 {ps} {rt} h.\n")
+
+
+def run_histories(histories, timeout=3000):
+    req = {"jobs": [], "signatures": False, "nproc": common.NPROC, "histories": histories}
+    rc, out = common.sh([common.PY, str(common.VERIF / "tools/vt/pyside.py")], cwd=common.REPO, env=common.py_env(),
+                        input=json.dumps(req), timeout=timeout)
+    if "@@RESULT@@" not in out:
+        raise RuntimeError("python side failed:\n" + out[-3000:])
+    return json.loads(out.split("@@RESULT@@", 1)[1])["histories"]
 
 
 def run_python(jobs, want_sig=True, nproc=None, timeout=3000):
@@ -86,12 +95,44 @@ class K2Result:
 
 def compare(prop: str, jobs: list[dict], extra_defs: str = "", extra_evals=None, shard=150, timeout=900) -> K2Result:
     """jobs: [{"id":..,"code":..,"fmt":..}]. Returns per-job status."""
-    out = K2Result()
     py = run_python(jobs)
-    out.sig = py["signatures"]
+    return compare_results(prop, py["results"], py["signatures"], extra_defs, extra_evals, shard, timeout)
+
+
+def insn_parts(results: list[dict]) -> list[dict]:
+    """flatten results of op "insn" into one pseudo-result per behaviour part (id "<id>#<part>")"""
+    out = []
+    for r in results:
+        if r.get("stage") in ("parse", "load", "harness"):
+            out.append({"id": f"{r['id']}#0", "name": r.get("name"), "ok": False, "stage": r.get("stage"), "exc": r.get("exc"), "msg": r.get("msg")})
+            continue
+        asts = r.get("asts", [])
+        n = len(asts)
+        for i in range(n):
+            d = {"id": f"{r['id']}#{i}", "name": r.get("name"), "part": i, "nparts": n, "behavior": r["behaviors"][i]}
+            if asts[i] is None:
+                d["unmapped"] = "; ".join(r.get("unmapped", []))
+            else:
+                d["ast"] = asts[i]
+            if r.get("ok"):
+                d.update(ok=True, text=r["texts"][i], meta=r["metas"][i], needs_hi=r["needs_hi"][i], needs_pkt=r["needs_pkt"][i],
+                         getter=r["getter_names"][i])
+            else:
+                d.update(ok=False, exc=r.get("exc"), msg=r.get("msg"), stage=r.get("stage"))
+            # hybrid counter: only known at instruction granularity; parts after the first get it from the model
+            d["hpre"] = r.get("hpre", 0) if i == 0 else None
+            d["hpost"] = r.get("hpost", 0) if i == n - 1 else None
+            out.append(d)
+    return out
+
+
+def compare_results(prop: str, results: list[dict], sig, extra_defs: str = "", extra_evals=None, shard=150, timeout=900,
+                    ignore_hcount=False) -> K2Result:
+    out = K2Result()
+    out.sig = sig
     rows = []
     ids = []
-    for r in py["results"]:
+    for r in results:
         out.results[r["id"]] = r
         if r.get("stage") == "parse":
             out.statuses[r["id"]] = "parse-error"
@@ -107,14 +148,14 @@ def compare(prop: str, jobs: list[dict], extra_defs: str = "", extra_evals=None,
             try:
                 b = iltext.parse_body(r["text"])
                 out.bodies[r["id"]] = b
-                pyterm = f"(Some ({b.coq()}, {r['hpost']}%N))"
+                pyterm = f"(Some ({b.coq()}, {r['hpost'] if r.get('hpost') is not None else 999999}%N))"
             except iltext.ILParseError as e:
                 out.malformed[r["id"]] = str(e)
                 out.statuses[r["id"]] = "malformed-text"
                 continue
         else:
             pyterm = "None"
-        rows.append(f"({r['hpre']}%N, {r['ast']}, {pyterm})")
+        rows.append(f"({r['hpre'] if r.get('hpre') is not None else 0}%N, {r['ast']}, {pyterm})")
         ids.append(r["id"])
     files = {}
     shard = max(20, min(shard, -(-len(rows) // common.NPROC)))
